@@ -103,7 +103,7 @@ func runC04(c *Ctx) {
 	})
 
 	// (b) partitions
-	nPart := c.Q(6000, 120000)
+	nPart := c.Q(6000, 1500000)
 	Par(nPart, func(i int) {
 		r := c.Rng(fmt.Sprintf("part%d", i))
 		var n int
@@ -283,7 +283,7 @@ func runC04(c *Ctx) {
 	// random longer traces with a wider write alphabet
 	wide := []op{{"W0", 0}, {"W1", 1}, {"W7", 7}, {"W55", 55}, {"W56", 56}, {"W63", 63}, {"W64", 64}, {"W65", 65}, {"W119", 119}, {"W128", 128}, {"W1000", 1000},
 		{"Sn", 0}, {"Sp", 0}, {"Spc", 0}, {"R", 0}}
-	nRand := c.Q(3000, 60000)
+	nRand := c.Q(3000, 600000)
 	Par(nRand, func(i int) {
 		r := c.Rng(fmt.Sprintf("rtrace%d", i))
 		l := 5 + r.Intn(4)
@@ -297,7 +297,7 @@ func runC04(c *Ctx) {
 	rep.Sample(map[string]interface{}{"kind": "trace", "ops": []string{"W63", "Sp", "W1", "Sn"}, "oracle": "after every Sum: result == prefix ‖ refSM3(bytes written since last Reset); after trace: Sum(nil) == refSM3(model)"})
 
 	// (d) HMAC / PBKDF2
-	nH := c.Q(400, 6000)
+	nH := c.Q(400, 60000)
 	Par(nH, func(i int) {
 		r := c.Rng(fmt.Sprintf("hmac%d", i))
 		key := r.Bytes(r.Pick(0, 1, 31, 32, 33, 63, 64, 65, 100, 200, r.Intn(200)))
